@@ -8,6 +8,7 @@ package main
 
 import (
 	"bytes"
+	"encoding/json"
 	"fmt"
 	"io"
 	"log"
@@ -190,6 +191,12 @@ func (w *world) runProxy(p *proxyRec) {
 		p.offer, p.offerNAT, p.relayURL = offer, natT, relay
 		if derr != nil {
 			p.statusErr = derr.Error()
+			// what the broker handed out is judged as it is on the wire, even where the strict
+			// decoder of a real proxy would refuse it
+			var raw struct{ Status, Offer, NAT, RelayURL string }
+			if json.Unmarshal(resp, &raw) == nil && raw.Offer != "" {
+				p.offer, p.offerNAT, p.relayURL = raw.Offer, raw.NAT, raw.RelayURL
+			}
 		}
 	}
 	p.pollDone = true
